@@ -278,6 +278,8 @@ func needsGroup(t string) bool {
 	return false
 }
 
+var inlineFlagEntries = []string{"(?i:a)$", "(?i)foo$", "^(?s:.)x", "(?i:b).c$", "(?i:a)|^b", "x(?i:y)$", "(?s:.)$", "^(?i:q)", "(?i:a.)$", "(?is:a.)$"}
+
 func suiteGenerate(env *Env, res *Result, focus string) {
 	res.Rule = "well-formed assembly programs generated as trees (focus " + focus + ": entries from a regex grammar incl. quotes, backslashes, classes with \\s, anchors, hex escapes, non-ASCII; nested assemble/cmdline blocks to depth 3; ##!=> / ##!=< name / ##!=> name; prefixes, suffixes, flags i/s; include files with own prefixes/suffixes/definitions, nested includes; definitions incl. nested ones; toolchain.yaml present/partial/empty/malformed/absent), rendered with clean or messy layout, run through the built CLI (stdin and file argument) and through the Gallina model with the rassemble.Join oracle; non-trivial = exit 0 with non-empty output; distinct by case hash. Oracles on the real output: language equivalence with the plain reading decided by the verified checker (vertical tab excluded), confirmed on Go's engine; shape predicates of C02; 3 fresh executions (C03); crash/hang (C19)"
 	r := NewRng(env.Seed + 100 + uint64(len(focus)))
@@ -287,6 +289,13 @@ func suiteGenerate(env *Env, res *Result, focus string) {
 		rr := r.Fork()
 		p := genProg(rr, focus)
 		p.normalise()
+		if rr.Chance(1, 10) {
+			// a hand-written inline flag group next to a metacharacter that needs another flag: the
+			// optimiser then prints groups with several set flags ((?im:, (?ms:, (?im-s:)
+			p.Body = append(p.Body, &Item{Kind: "entry", Text: rr.Pick(inlineFlagEntries)})
+			p.InlineFlags = true
+			p.feat("inline-flag-entry")
+		}
 		o := &renderOpts{r: rr.Fork(), messy: rr.Chance(1, 3)}
 		text := p.Render(o)
 		tree := p.Tree("942100", text, o)
@@ -351,6 +360,10 @@ func suiteGenerate(env *Env, res *Result, focus string) {
 		}
 		for _, f := range checkOutputShape(g.first.Stdout, g.p.Flags) {
 			res.addFailure(Failure{Kind: "C02", Shape: f, Input: input, Detail: clip(g.first.Stdout, 300)})
+		}
+		if g.p.InlineFlags {
+			res.count("equivalence-skipped-inline-flag-entry")
+			continue
 		}
 		if !g.denOK {
 			if g.first.Stdout != "" {
